@@ -98,6 +98,19 @@ Definition show_mut (code : N) (s : sf) (r : res (option (list step * sf))) : li
   end.
 
 (* tile lists after each storage step of the next mutating operation, and the remaining tokens *)
+(* damage: xor the byte at an offset with a mask; patches as a flat list off1 mask1 off2 mask2 ... *)
+Fixpoint xor_at (img : bytes) (off : nat) (mask : N) : bytes :=
+  match img, off with
+  | [], _ => []
+  | b :: r, O => N.lxor b mask :: r
+  | b :: r, S k => b :: xor_at r k mask
+  end.
+Fixpoint patch_all (img : bytes) (ps : list N) : bytes :=
+  match ps with
+  | off :: mask :: r => patch_all (xor_at img (N.to_nat off) mask) r
+  | _ => img
+  end.
+
 Definition stages_of (s : sf) (l : list N) : option (list (list tile) * list N) :=
   let of_write (rid : bytes) (ss : list stream) (exp : N) (r : list N) :=
       match write_stages (tiles s) (nseq s) rid ss (exp_for s rid ss exp) with
@@ -261,6 +274,26 @@ Definition run_op (s : sf) (l : list N) : option (list N * sf * list N) :=
       | None => None
       end
   | 32 :: r => let img := flatten (tiles s) in Some ([32; blen img; hash_bytes img], s, r)
+  | 60 :: mode :: coll :: n :: r =>
+      (* damage: n patches (offset, xor mask) applied to the image, which is then opened again;
+         a collection (coll = 1) also needs its options record "" to be readable *)
+      match take_n (2 * N.to_nat n) r [] with
+      | Some (ps, r') =>
+          let img := patch_all (flatten (tiles s)) ps in
+          match open_image (negb (mode =? 2)) img with
+          | Ok s' =>
+              if coll =? 1 then
+                match read_record s' [] with
+                | Ok _ => Some ([60; 0], s', r')
+                | Err => Some ([60; 1], s, r')
+                | Panic => Some ([60; 2], s, r')
+                end
+              else Some ([60; 0], s', r')
+          | Err => Some ([60; 1], s, r')
+          | Panic => Some ([60; 2], s, r')
+          end
+      | None => None
+      end
   | _ => None
   end.
 
